@@ -78,7 +78,7 @@ def run_mc(base, name, consts, defs, invs, view=False, spec='Spec', **kw):
     lines.append('====')
     cfg += [f'SPECIFICATION {spec}', 'CHECK_DEADLOCK FALSE']
     if view:
-        cfg.append('VIEW view')
+        cfg.append('VIEW ' + (view if isinstance(view, str) else 'view'))
     cfg += [f'INVARIANT {i}' for i in invs]
     tla, cf = os.path.join(SPEC, mod + '.tla'), os.path.join(SPEC, mod + '.cfg')
     with open(tla, 'w') as f:
@@ -209,12 +209,22 @@ def main(ctx):
         absr = (6, 4, rp + ['a/../b', '//a'], abs_t + ['/b'])
     fsdefs = lambda paths, targets, trees: dict(
         ReqPaths=PS(paths), Targets=PS(targets), InitTrees='<-' + trees)
-    jobs['fs as written (escape histories)'] = lambda: run_mc(
-        'PathConfineFS', 'fs_full',
-        fs_consts(full[0], full[1], ALLOPS, emit=True,
-                  rewrite=variant['rewrite']),
-        fsdefs(full[2], full[3], 'TreesSmall' if quick else 'TreesAll'),
-        ['TypeOK'], view=True, workers=W, timeout=800)
+    # one script per reachable file-system shape: breadth-first search over
+    # the state-changing requests that build (and relocate) link chains
+    build_ops = ['mkdir', 'symlink', 'rename', 'posix_rename', 'link']
+    build_locs = ['a', 'b', 'a/b', 'a/a', 'b/a']
+    build_tgts = ['/', '/a', '..', '../..', 'a', 'b', 'b/..', 'b/../..',
+                  'b/../a', '../a']
+    if quick:
+        build = (3, 3, build_ops)
+    else:
+        build = (4, 4, build_ops + ['remove', 'rmdir'])
+    jobs['fs link-chain scripts'] = lambda: run_mc(
+        'PathConfineFS', 'fs_scripts',
+        fs_consts(build[0], build[1], build[2], rule='strip',
+                  rewrite=variant['rewrite'], bias='chg'),
+        fsdefs(build_locs, build_tgts, 'TreesSmall'),
+        ['TypeOK', 'StateTable'], view='viewfs', workers=W, timeout=800)
     jobs['fs as written'] = lambda: run_mc(
         'PathConfineFS', 'fs_full_inv', fs_consts(4, 3, ALLOPS),
         fsdefs(rp[:5], rel_t[:3], 'TreesSmall'), ['AllTouchedUnderRoot'],
@@ -562,7 +572,7 @@ def conv_req(r):
 
 def replay_fs(ctx, pc, results, rule, quick):
     world = pc.ServerWorld()
-    found = {}          # (kind, setup) -> (use, example)
+    found = {}          # cause (kind, history) -> example
     cache = {}
     nseq = 0
     try:
@@ -571,76 +581,140 @@ def replay_fs(ctx, pc, results, rule, quick):
             for steps in getattr(results[name], 'sim', []):
                 if len(steps) < 2:
                     continue
-                init = pc.model_tree(steps[0][1]['fs'])
+                init = tree_from_model(pc.model_tree(steps[0][1]['fs']))
                 reqs, pred = [], []
                 for _a, st in steps[1:]:
                     lbl = st['lbl']
                     reqs.append(conv_req(lbl))
                     pred.append((lbl[3], lbl[4], pc.model_tree(st['fs'])))
-                r = pc.run_sequence(world, tree_from_model(init), reqs, pred)
+                r = pc.run_sequence(world, init, reqs, pred)
                 nseq += 1
                 key = tuple(s['req'] for s in r['steps'])
                 ctx.count(('sim', key), nontrivial=any(
                     s['st'] == 'ok' for s in r['steps']))
                 if nseq % 25 == 1:
-                    ctx.sample({'part': 'fs behaviour', 'init': sorted(
-                        '/'.join(k) for k in tree_from_model(init)),
-                        'steps': r['steps']})
-                note_escapes(pc, world, found, cache, tree_from_model(init),
-                             reqs, r)
+                    ctx.sample({'part': 'fs behaviour',
+                                'init': sorted('/'.join(k) for k in init),
+                                'steps': r['steps']})
+                if r['escapes']:
+                    idx, causes, evs = r['escapes'][0]
+                    note_escape(pc, world, found, cache,
+                                init_requests(init) + reqs[:idx + 1],
+                                causes, evs)
                 if r['diverged']:
                     ctx.divergence(f'fs behaviour {key}: {r["diverged"]}')
-        # (b) every escaping history TLC found for the server as written
-        hists = [(h[0], h[1]) for h in printed_blocks(
-            results['fs as written (escape histories)'], 'ESC')]
-        ctx.require(len(hists) > 10, 'no escape histories from TLC')
-        hists.sort(key=lambda h: (len(h[0]), json.dumps(h, sort_keys=True)))
-        by_setup = {}
-        for h, it in hists:
-            by_setup.setdefault(json.dumps([h[:-1], it], sort_keys=True),
-                                []).append((h, it))
-        limit = 3 if quick else 10
-        for _setup, group in by_setup.items():
-            for k, (h, it) in enumerate(group[:limit]):
-                reqs = [conv_req(x) for x in h]
-                init = tree_from_model(pc.model_tree(it))
-                r = pc.run_sequence(world, init, reqs)
+        # (b) one script per reachable file-system shape (TLC breadth-first
+        #     search over link-building requests) + the probe battery
+        res = results['fs link-chain scripts']
+        states = printed_blocks(res, 'ST')
+        ctx.require(len(states) > 50, 'no scripts from TLC')
+        states.sort(key=lambda x: (len(x[0]), json.dumps(x[0])))
+        nprobe = nlinks = nescaping = 0
+        for hist, it, fs, esc, escset in states:
+            script = [conv_req(x) for x in hist]
+            init = tree_from_model(pc.model_tree(it))
+            want = set((op, '/'.join(p)) for op, p in escset['$set'])
+            final = pc.model_tree(fs)
+            if esc:
+                # the last building request itself leaves the root
+                r = pc.run_sequence(world, init, script)
                 nseq += 1
-                ctx.count(('esc', tuple(s['req'] for s in r['steps'])))
+                ctx.count(('script', tuple(s['req'] for s in r['steps'])))
                 if not r['escapes']:
                     ctx.divergence('model predicts an escape, none observed: '
-                                   + '; '.join(pc.req_str(x) for x in reqs))
-                elif k == 0:
-                    note_escapes(pc, world, found, cache, init, reqs, r)
+                                   + '; '.join(pc.req_str(x) for x in script))
+                else:
+                    idx, causes, evs = r['escapes'][0]
+                    note_escape(pc, world, found, cache,
+                                init_requests(init) + script[:idx + 1],
+                                causes, evs)
+                continue
+            out = pc.run_script(world, init, script, final, want)
+            nseq += 1
+            nprobe += out['nprobes']
+            nlinks += bool(out['nprobes'])
+            ctx.count(('script', tuple(pc.req_str(x) for x in script)),
+                      nontrivial=bool(out['nprobes']))
+            if nseq % 60 == 1 and out['nprobes']:
+                ctx.sample({'part': 'fs script + probes',
+                            'script': [pc.req_str(x) for x in script],
+                            'probes': out['nprobes'],
+                            'escaping_probes': [(o, p_) for o, p_, _c, _e
+                                                in out['uses']]})
+            b = out['build']
+            if b['escapes']:
+                idx, causes, evs = b['escapes'][0]
+                note_escape(pc, world, found, cache,
+                            init_requests(init) + script[:idx + 1], causes, evs)
+            nescaping += bool(out['uses'])
+            for op, path, causes, evs in out['uses']:
+                note_escape(pc, world, found, cache,
+                            init_requests(init) + script +
+                            [(op, path.encode(), b'')], causes, evs)
+            for d in out['diverged'][:2]:
+                ctx.divergence('script ' +
+                               '; '.join(pc.req_str(x) for x in script) +
+                               ': ' + d)
+        # requests that would close a symbolic-link cycle (not explored
+        # further by the model): replayed under the monitor alone
+        loops = {json.dumps(x) for x in printed_blocks(res, 'LOOP')}
+        for x in sorted(loops):
+            hist, it = json.loads(x)
+            script = [conv_req(h) for h in hist]
+            init = tree_from_model(pc.model_tree(it))
+            out = pc.run_script(world, init, script, None, set(),
+                                probes=['stat', 'open_r', 'open_w', 'remove'])
+            nseq += 1
+            nprobe += out['nprobes']
+            ctx.count(('loop', tuple(pc.req_str(q) for q in script)))
+            b = out['build']
+            if b['escapes']:
+                idx, causes, evs = b['escapes'][0]
+                note_escape(pc, world, found, cache,
+                            init_requests(init) + script[:idx + 1], causes, evs)
+            for op, path, causes, evs in out['uses']:
+                note_escape(pc, world, found, cache,
+                            init_requests(init) + script +
+                            [(op, path.encode(), b'')], causes, evs)
+        ctx.notes.append(f'link-chain scripts: {len(states)} file-system '
+                         f'shapes ({nlinks} with links), {len(loops)} '
+                         f'cycle-closing requests, {nprobe} probes, '
+                         f'{nescaping} shapes with escaping probes')
         # (c) fixed regression histories (re-established findings)
         for name, reqs in REGRESSIONS:
             r = pc.run_sequence(world, {}, reqs)
             nseq += 1
             ctx.count(('regression', name))
-            note_escapes(pc, world, found, cache, {}, reqs, r, prio=0)
+            if r['escapes']:
+                idx, causes, evs = r['escapes'][0]
+                note_escape(pc, world, found, cache, reqs[:idx + 1], causes,
+                            evs, prio=0)
         ctx.traces_validated(nseq)
-        # report: per kind, the shortest few minimal setups
-        per_kind = {}
-        for (kind, setup), ex in found.items():
-            per_kind.setdefault(kind, []).append((setup, ex))
-        for kind, lst in sorted(per_kind.items()):
-            lst.sort(key=lambda x: (x[1][2], len(x[0]), x[0]))
-            ctx.notes.append(f'{kind}: {len(lst)} distinct minimal setups: ' +
-                             ' | '.join('; '.join(x[0]) for x in lst[:12]))
+        # report: one violation per cause = (kind, history shape)
+        for (kind, hist), ex in sorted(found.items()):
             if kind == 'map-path':
                 continue            # reported by the mapping part
-            nprio = sum(1 for x in lst if x[1][2] == 0)
-            for setup, (use, ex, _prio) in lst[:max(3, nprio)]:
-                ctx.violation(
-                    {'module': 'PathConfine', 'kind': kind,
-                     'setup': list(setup)},
-                    f'chroot escape ({kind}): after {list(setup)} the request '
-                    f'{use} made the server touch {ex} (outside the root); '
-                    f'{len(lst)} distinct minimal setups of this kind',
-                    replay={'kind': 'server-seq',
-                            'requests': list(setup) + [use]})
+            setup, use, where, _prio = ex
+            ctx.notes.append(f'{kind} {list(hist)}: e.g. ' + '; '.join(setup)
+                             + ' -> ' + use)
+            ctx.violation(
+                {'module': 'PathConfine', 'kind': kind, 'history': list(hist)},
+                f'chroot escape ({kind}, history {list(hist)}): e.g. after '
+                f'{list(setup)} the request {use} made the server touch '
+                f'{where} (outside the root)',
+                replay={'kind': 'server-seq',
+                        'requests': list(setup) + [use]})
     finally:
         world.close()
+
+
+def init_requests(init):
+    """an initial tree as the requests that build it"""
+    reqs = []
+    for loc in sorted(init, key=lambda k: (len(k), k)):
+        reqs.append(('mkdir' if init[loc] == 'dir' else 'open_w',
+                     '/'.join(loc).encode(), b''))
+    return reqs
 
 
 def pc_two_slashes(b):
@@ -683,29 +757,26 @@ def canon_names(reqs):
     return [(op, conv(p), conv(q)) for op, p, q in reqs]
 
 
-def note_escapes(pc, world, found, cache, init, reqs, r, prio=1):
-    if not r['escapes']:
-        return
-    idx, kinds, evs = r['escapes'][0]
-    seq = reqs[:idx + 1]
-    for kind in kinds:
-        if kind == 'map-path':
-            found.setdefault((kind, ('path of form //x',)),
-                             (pc.req_str(seq[-1]), evs[0][2], prio))
+def note_escape(pc, world, found, cache, seq, causes, evs, prio=1):
+    """seq: requests from the empty root, the last one escaping for `causes`
+    [(kind, history)].  Keeps, per cause, the best minimal example."""
+    for cause in causes:
+        old = found.get(cause)
+        if old is not None and old[3] <= prio and len(old[0]) <= 3:
+            continue                    # a short example is already known
+        if cause[0] == 'map-path':
+            found.setdefault(cause, ((), pc.req_str(seq[-1]), evs[0][2], prio))
             continue
-        ck = (kind, json.dumps(sorted(init)), tuple(seq[:-1]))
+        ck = (cause, tuple(seq))
         if ck not in cache:
-            small = pc.minimise(world, init, seq, kind) if len(seq) > 1 \
-                else seq
-            if not init:
-                small = canon_names(small)
-            cache[ck] = small
+            small = pc.minimise(world, {}, seq, cause) if len(seq) > 1 else seq
+            cache[ck] = canon_names(small)
         small = cache[ck]
-        setup = tuple(([f'init {sorted(("/".join(k), v) for k, v in init.items())}']
-                       if init else []) + [pc.req_str(x) for x in small[:-1]])
-        old = found.get((kind, setup))
-        if old is None or old[2] > prio:
-            found[(kind, setup)] = (pc.req_str(small[-1]), evs[0][2], prio)
+        setup = tuple(pc.req_str(x) for x in small[:-1])
+        new = (setup, pc.req_str(small[-1]), evs[0][2], prio)
+        if old is None or (prio, len(setup), setup) < (old[3], len(old[0]),
+                                                       old[0]):
+            found[cause] = new
 
 
 # --------------------------------------------------------------------------
@@ -832,21 +903,14 @@ def replay_dl(ctx, pc, results, quick):
                         {'dest': 'dir', 'cont': True}, hist, r, top,
                         preserve=True)
         ctx.traces_validated(n)
-        per_kind = {}
-        for (kind, inp), ex in found.items():
-            per_kind.setdefault(kind, []).append((inp, ex))
-        for kind, lst in sorted(per_kind.items()):
-            lst.sort(key=lambda x: (x[1][1], len(x[0]), x[0]))
-            ctx.notes.append(f'{kind}: {len(lst)} distinct minimal inputs: ' +
-                             ' | '.join('; '.join(x[0]) for x in lst[:12]))
-            nprio = sum(1 for x in lst if x[1][1] == 0)
-            for inp, (ex, _prio, raw) in lst[:max(3, nprio)]:
-                ctx.violation(
-                    {'module': 'PathConfine', 'kind': kind, 'input': list(inp)},
-                    f'download wrote outside the destination ({kind}): remote '
-                    f'side sent {list(inp)}; local effect {ex}; {len(lst)} '
-                    f'distinct minimal inputs of this kind',
-                    replay=dict(raw, kind='download'))
+        for (kind, hist), (ex, _prio, raw, inp) in sorted(found.items()):
+            ctx.notes.append(f'{kind} {list(hist)}: e.g. ' + '; '.join(inp))
+            ctx.violation(
+                {'module': 'PathConfine', 'kind': kind, 'history': list(hist)},
+                f'download wrote outside the destination ({kind}, history '
+                f'{list(hist)}): e.g. remote side sent {list(inp)}; local '
+                f'effect {ex}',
+                replay=dict(raw, kind='download'))
     finally:
         world.close()
 
@@ -867,6 +931,36 @@ DL_REGRESSIONS = [[_m(e) for e in h] for h in [
 PRESERVE_CASES = [[_m(e) for e in h] for h in [
     [ent('a', 'link', '/T/sdir'), ent('a', 'dir', sub=[])],
 ]]
+
+
+def dl_history(mode, seq, preserve, rr_ev=None):
+    """abstract shape of a minimal hostile input (the signature)"""
+    def name_class(nm):
+        nm = '/'.join(nm)
+        return ('empty-name' if nm == '' else 'dot' if nm == '.' else
+                'dotdot' if nm == '..' else 'absolute' if nm.startswith('/')
+                else 'with-separator' if '/' in nm else
+                'with-backslash' if '\\' in nm else 'plain')
+
+    def ent_shape(e):
+        if e['type'] == 'link':
+            t = '/'.join(e['t'])
+            return 'link ' + ('absolute' if t.startswith('/') else 'relative')
+        sh = e['type']
+        nc = name_class(e['name'])
+        if nc != 'plain':
+            sh += f'({nc})'
+        if e['sub']:
+            sh += '[' + ','.join(ent_shape(x) for x in e['sub']) + ']'
+        return sh
+    if mode == 'scp':
+        out = [f'{x["a"]}({name_class(x["name"])})' if x['a'] in 'CD'
+               else x['a'] for x in seq]
+    else:
+        out = [ent_shape(e) for e in seq]
+    if preserve:
+        out.append('preserve')
+    return tuple(out)
 
 
 def scp_script(hist):
@@ -928,13 +1022,16 @@ def note_dl(pc, world, found, cache, mode, cfg, hist, r, top, preserve=False,
         nm = names_of(seq)
         kind += (':separator' if any('/' in x for x in nm) else
                  ':dotdot' if any(x in ('.', '..') for x in nm) else ':other')
-    if (kind, inp) in found and found[(kind, inp)][1] <= prio:
+    hist = dl_history(mode, seq, preserve, rr_ev=None)
+    key = (kind, hist)
+    old = found.get(key)
+    if old is not None and (old[1], len(old[3]), old[3]) <= (prio, len(inp), inp):
         return
     rr = run(seq)
     ex = [e.as_list() for e in rr['escapes'][:2]] or rr['outside']
     ex = json.loads(json.dumps(ex).replace(top, '/T'))
-    found[(kind, inp)] = (ex, prio, dict(mode=mode, cfg=cfg, hist=seq,
-                                         preserve=preserve))
+    found[key] = (ex, prio, dict(mode=mode, cfg=cfg, hist=seq,
+                                 preserve=preserve), inp)
 
 
 # --------------------------------------------------------------------------
